@@ -232,6 +232,8 @@ def layers(tier):
             jobs.append({'L': lv, 'R': rv, 'seqs': c, 'n_jobs': [1, 2, 3, -1], 'pres': pres, 'orders': True})
     for c in chunks(seqs_of(2, 2), 4):      # duplicate index labels on the candidate set, whatever the seed
         jobs.append({'L': T22[1][0], 'R': T22[1][1], 'seqs': c, 'n_jobs': [1, 2], 'pres': 3})
+    for c in chunks(seqs_of(2, 2), 4):      # NA-backed 'string' columns with pd.NA as missing marker
+        jobs.append({'L': T22[0][0], 'R': T22[0][1], 'seqs': c, 'n_jobs': [1, 2], 'pres': 6})
     S = seqs_of(3, 2, maxlen=2 if quick else 4, repeats=False) + [[(i, j) for i in range(3) for j in range(2)]]
     for c in chunks(S, 2):
         jobs.append({'L': ['a b', 'a', None], 'R': ['a b', 'b'], 'seqs': c, 'n_jobs': [1, 2, 7], 'pres': pres,
